@@ -199,8 +199,12 @@ def hazard_alphabet():
     A.append(("addX_bcastinX>Y", ew_spec("ADD", X, X + 16, Y, bshape=(1, 1, 8))))
     # both operands are windows of ONE buffer (upper and lower half of X, as after a SPLIT along the height): the dependency on the producer of X
     # runs through the operand that holds the rows written last - IFM2 in the first, IFM in the second
-    A.append(("addXtopXbot>Y", ew_spec("ADD", X, X + 1024, Y, hw=(8, 16))))
-    A.append(("addXbotXtop>Y", ew_spec("ADD", X + 1024, X, Y, hw=(8, 16))))
+    A.append(("addXtopXbot>Y", ew_spec("ADD", X, X + 1024, Y, hw=(8, 16), block="largest")))
+    A.append(("addXbotXtop>Y", ew_spec("ADD", X + 1024, X, Y, hw=(8, 16), block="largest")))
+    # ... and the first two / the last two rows of X: the very first job of the consumer reads what the last job of the producer of X writes
+    A.append(("addXfirstXlast>Y", ew_spec("ADD", X, X + 14 * 128, Y, hw=(2, 16), block="largest")))
+    A.append(("addXlastXfirst>Y", ew_spec("ADD", X + 14 * 128, X, Y, hw=(2, 16), block="largest")))
+    A.append(("convY>X_4x16", conv_spec(Y, X, block=(4, 16, 8))))
     A.append(("dmaY>Xtail", dma_spec(1, Y, 1, X + 1024, 1024)))
     A.append(("dmaXtail>Z", dma_spec(1, X + 1024, 1, Z, 1024)))
     A.append(("dmaF>Xtail", dma_spec(0, 0x2000, 1, X + 1024, 1024)))
